@@ -324,14 +324,15 @@ def __init__(self, env, timeout, timeout_callback, auto_restart=False, args=None
 ''')
 
 spec('Timer', 'run', what='while an expiry is pending (a flag, not a clock comparison: a period below the resolution of '
-                          'the clock gives expiry == now and must still fire): sleep exactly until expire_time; then '
+                          'the clock gives expiry == now and must still fire; the flag is consumed only after the sleep, so a sleeper '
+                          'interrupted by restart() leaves it to its successor): sleep exactly until expire_time; then '
                           'callback(*args, **kwargs) iff not stopped; re-arm now + timeout iff auto_restart; an interrupt '
                           'ends the process silently')('''
 def run(self, env):
     try:
         while self.armed:
-            self.armed = False
             yield self.env.timeout(self.expire_time - env.now)
+            self.armed = False
             if not self.stopped:
                 self.timeout_callback(*self.args, **self.kwargs)
                 if self.auto_restart:
